@@ -30,7 +30,7 @@ for d in sorted(os.listdir('/verif/seeded')):
     note=m.get('strengthening','')
     rows.append('| %s | %s (`%s`) | %s | %s |'%(d,title[:110],', '.join(m['files_changed']),'<br>'.join(caught) or '—', ('not by: '+', '.join(miss)+'. ' if miss else '')+(('Strengthened: '+note) if note else m.get('note',''))))
 table='| Seed | Change | Caught by (check/tier: exploration, assertion) | Notes |\n|---|---|---|---|\n'+'\n'.join(rows)
-sec0=open('/verif/tools/design/asbuilt.md').read()+open('/verif/tools/design/asbuilt2.md').read().replace('SEEDTABLE',table)+open('/verif/tools/design/asbuilt3.md').read()
+sec0=open('/verif/tools/design/asbuilt.md').read()+open('/verif/tools/design/asbuilt2.md').read().replace('SEEDTABLE',table)+open('/verif/tools/design/asbuilt3.md').read()+open('/verif/tools/design/asbuilt4.md').read().replace('THOROUGHTABLE',open('/verif/tools/design/thorough_table.md').read())
 a=s.index('## 1. Technique')
 # status line
 s=s.replace('''Status of this document: written before any framework code exists. It fixes the
@@ -43,7 +43,7 @@ bounds, and what stays outside the claim. Section 0 was written after
 construction and is kept current: it says what was actually built, where it
 deviates from the plan, what the checks found, and which seeded changes they
 catch.''')
-s=s.replace('Contents\n\n1. What','Contents\n\n0. As built: status, deviations, false alarms, translator validation, findings, seeded changes, per-property coverage\n1. What')
+s=s.replace('Contents\n\n1. What','Contents\n\n0. As built: status, deviations, false alarms, translator validation, findings, seeded changes, per-property coverage, thorough tier\n1. What')
 a=s.index('## 1. Technique')
 # keep the dashed separator before section 1
 s=s[:a]+sec0+'\n---------------------------------------------------------------------------\n\n'+s[a:]
